@@ -322,6 +322,9 @@ func readValidatorsInfoAt(db kaidb.Reader, hash common.Hash, height uint64) *kst
 // LoadConsensusParams loads the ConsensusParams for a given height.
 func (s *dbStore) LoadConsensusParams(height uint64) (kproto.ConsensusParams, error) {
 	cstate := rawdb.ReadConsensusStateHeight(s.db, height)
+	if cstate == nil {
+		return kproto.ConsensusParams{}, ErrNoConsensusStateForHeight{height}
+	}
 
 	params := rawdb.ReadConsensusParamsInfo(s.db, common.BytesToHash(cstate.ConsensusParamsInfoHash))
 	if params == nil {
